@@ -51,6 +51,7 @@ func runAtomicity(w *World, pre *Snapshot, target Op, only *Inject) crashOutcome
 func runAtomicityFor(prop string, w *World, pre *Snapshot, target Op, only *Inject) crashOutcome {
 	var oc crashOutcome
 	oc.kind = target.Kind + "/" + fieldSig(target)
+	w.writeFiles(target.Files) // the model looks at the files a result names
 	if w.Predict(pre, target).Decision == MustReject {
 		oc.skipped = "model rejects the command"
 		return oc
@@ -167,6 +168,10 @@ func replayCrash(t *testing.T, path string, run func(w *World, pre *Snapshot, cc
 		schedPre{Legacy: true}.apply(w.Root)
 	}
 	oc := run(w, pre, cc)
+	if oc.skipped != "" {
+		t.Logf("instance skipped: %s", oc.skipped)
+	}
+	t.Logf("kill points tried: %d, kills landed: %d, follow-up commands: %d", oc.points, oc.killed, oc.followUps)
 	for _, l := range oc.trace {
 		t.Log(l)
 	}
